@@ -126,5 +126,7 @@ RemsLong     == {"zero", "half"}
 \* k*step - 0.51, - 0.50, - 0.49, - 0.12, + 0, + 0.12, + 0.49, + 0.50, + 1, + 1.12, + 1.50 s
 DtsFrac      == {200, 700, 6000, 30000}
 QuotsFrac    == {0, 1, 2}
+SpanRemsAll  == {"zero", "s1", "m1", "frac"}      \* DurationsFrac.tla: configured span = 4 steps + 0 / 1 s / step - 1 s / a fraction
+SpanRemsTwo  == {"m1", "frac"}
 RemsFrac     == {"m51", "m50", "m49", "m12", "zero", "p12", "p49", "p50", "s100", "s112", "s150"}
 =============================================================================
